@@ -96,6 +96,24 @@ class Replay:
         self.built = True
         self.log(f"replay driver built in {time.time() - t0:.1f}s")
 
+    def run_faulty(self, request, fault, timeout=60):
+        """one request in its own process with the LD_PRELOAD fault injector: fault = 'op:path-suffix:n'"""
+        self.build()
+        shim = os.path.join(WORK, "faultshim.so")
+        src = os.path.join(VERIF, "faultshim", "faultshim.c")
+        if not os.path.exists(shim) or os.path.getmtime(shim) < os.path.getmtime(src):
+            r = subprocess.run(["cc", "-shared", "-fPIC", "-O1", "-o", shim, src, "-ldl"], capture_output=True, text=True)
+            if r.returncode != 0:
+                raise Inconclusive("fault injector does not build: " + r.stderr[-400:])
+        env = _env()
+        env["LD_PRELOAD"] = shim
+        env["VERIF_FAULT"] = fault
+        p = subprocess.run([self.bin], input=json.dumps(request) + "\n", capture_output=True, text=True, timeout=timeout, env=env)
+        lines = [l for l in p.stdout.split("\n") if l.strip()]
+        if len(lines) != 1:
+            raise Inconclusive(f"faulty replay gave no answer: {p.stderr[-300:]}")
+        return json.loads(lines[0])
+
     def run(self, requests, timeout=600, unprivileged=False):
         """requests: list of dict -> list of dict (one answer per request).  unprivileged: drop to uid/gid nobody when the
         check itself runs as root, so that permission bits mean what they mean for a buildpack (root bypasses them)"""
